@@ -120,7 +120,8 @@ func (s *Scenario) inst(id string) *InstSpec {
 // Timing configurations (DESIGN §4).
 func K1(s *Scenario) *Scenario { s.H, s.TTL, s.Validation = 200*ms, 600*ms, 233*ms+13*us; return s }
 func K2(s *Scenario) *Scenario { s.H, s.TTL, s.Validation = 200*ms, 1000*ms, 0; return s }
-func K4(s *Scenario) *Scenario { s.H, s.TTL, s.Validation = 20000 * ms, 60000 * ms, 0; return s }
+func K4(s *Scenario) *Scenario { s.H, s.TTL, s.Validation = 20000*ms, 60000*ms, 0; return s }
+func K5(s *Scenario) *Scenario { s.H, s.TTL, s.Validation = 500*ms, 1500*ms, 0; return s }
 func K3(s *Scenario) *Scenario { s.H, s.TTL, s.Validation = 4000*ms, 12000*ms, 0; return s }
 
 func (s *Scenario) faultFree() *Scenario {
